@@ -553,6 +553,25 @@ func sites(c *checked) []site {
 					}
 				}
 			}
+		case *ast.SwitchStmt:
+			// an ill-typed expression in a case list, before and after valid ones
+			if x.Tag != nil && x.Body != nil {
+				if tv, ok := c.info.Types[x.Tag]; ok && tv.Type != nil {
+					if k := basicKind(tv.Type); k != "" {
+						for _, st := range x.Body.List {
+							cc, ok := st.(*ast.CaseClause)
+							if !ok || len(cc.List) == 0 {
+								continue
+							}
+							add("case-list-first-mismatch", func() { cc.List = append([]ast.Expr{wrongLit(k)}, cc.List...) })
+							add("case-list-last-mismatch", func() { cc.List = append(cc.List, wrongLit(k)) })
+							if k == "int" {
+								add("case-list-float-constant", func() { cc.List = append([]ast.Expr{lit(token.FLOAT, "1.5")}, cc.List...) })
+							}
+						}
+					}
+				}
+			}
 		case *ast.BlockStmt:
 			// statement snippets can be inserted anywhere in a block
 			blocks = append(blocks, blockSite{x, contextOf(append(stack, n))})
@@ -655,7 +674,7 @@ func knownOps() map[string]bool {
 func allOps() []string {
 	ops := []string{"operand-type-numeric", "assign-type-numeric", "arg-type-numeric", "return-type-numeric", "operand-type", "compare-type", "assign-type", "assign-type-composite", "opassign-type", "var-init-type", "const-range-assign", "const-range-var", "const-range-arg",
 		"arg-count-more", "arg-count-less", "arg-type", "undefined-method", "return-count-more", "return-count-less", "return-type", "undefined-field", "undefined-name", "for-cond-nonbool",
-		"complit-duplicate-field", "complit-unknown-field", "complit-mixed", "complit-too-few", "complit-too-many", "complit-elem-type", "complit-array-bounds", "complit-map-key-type"}
+		"case-list-first-mismatch", "case-list-last-mismatch", "case-list-float-constant", "complit-duplicate-field", "complit-unknown-field", "complit-mixed", "complit-too-few", "complit-too-many", "complit-elem-type", "complit-array-bounds", "complit-map-key-type"}
 	for _, s := range snippets {
 		ops = append(ops, "snippet:"+s.op)
 	}
